@@ -184,8 +184,9 @@ def tlc(module, cfg=None, workdir=None, workers=None, timeout=600, simulate=None
     jopts = java_opts or ""
     if deque:
         jopts += " -Dtlc2.tool.queue.IStateQueue=StateDeque"
-    if heap:
-        jopts += " -Xmx" + heap
+    # many TLC processes run side by side (sharded traces, several checks): keep each JVM's heap modest unless asked
+    heap = heap or os.environ.get("VERIF_TLC_HEAP", "6g")
+    jopts += " -Xmx" + heap
     t = time.time()
     p = run(cmd, cwd=workdir, env={"JAVA_TOOL_OPTIONS": jopts.strip()}, timeout=timeout)
     shutil.rmtree(meta, ignore_errors=True)
